@@ -1,5 +1,5 @@
 #!/bin/bash
-# C19 differential: usage: c19_diff.sh DIR PREFIX  -- runs the extracted model on every shard and compares
+# differential for any component: usage: c19_diff.sh DIR PREFIX  -- runs the extracted model on every shard and compares
 DIR=$1; P=$2; bad=0
 for c in $DIR/$P.cases.*.txt; do
   i=${c/.cases./.impl.}
